@@ -113,7 +113,7 @@ def c03_framing(want_hex):
 
 
 # ------------------------------------------------------------------------------------------------ O2 reply path
-def o2_recv_error(chk, prog, text_len):
+def o2_recv_error(chk, prog, text_len, prop='C03'):
     """An ErrorResponse is relayed like any other message -- also on a connection with a statement cache, where the pooler LOOKS INTO it, and also
     when its text is not UTF-8 (a server with another client_encoding and localised messages)."""
     name = 'O2-recv-error-text%d' % text_len
@@ -153,7 +153,7 @@ def o2_recv_error(chk, prog, text_len):
         if bad:
             m = ip_.model_for()
             hx = bytes(m.eval(b.z(), True).as_long() for b in stream).hex()
-            chk.report(ob, 'C03/O2/error-response-not-relayed', bad, {'stream_hex': hx},
+            chk.report(ob, prop + '/O2/error-response-not-relayed', bad, {'stream_hex': hx},
                        {'commands': [{'op': 'server_script', 'pre': {}, 'cache': 4, 'inbound_hex': hx, 'steps': [{'do': 'recv'}]}], 'expect': ['srv_expect', {'steps': [{'err': False, 'hex': hx}]}]})
         if len(ob.samples) < 2:
             ob.samples.append({'ok': okk})
@@ -395,6 +395,11 @@ def main(chk):
         tasks.append((o3_send, (prog, n)))
     tasks.sort(key=lambda t: -(len(t[1][1]) if t[0] is o2_recv else 0))
     chk.parallel(_dispatch, tasks)
+    # outside the client loop: a health check whose reply is still to come (it timed out) must take its connection out of the pool, or every later
+    # reply on that connection is relayed one request late (ConnectionPool::get / run_health_check from MIR, instantiated for this property)
+    import checks.c07 as c07
+    for roles in ((1,), (0, 1)):
+        c07.o3_get(chk, prog, roles, [], only={'failed-healthcheck-not-bad'}, props=('C03',))
 
     hobl.handle_obligations(chk, prog, {'C03'}, ['simple', 'session', 'extended', 'named', 'malformed', 'cuts', 'plugins', 'two-backends', 'pause', 'copy', 'commands', 'two-clients', 'timeouts', 'drops', 'checkout-failures'])
 
